@@ -5,6 +5,9 @@
 set -u
 cd "$(dirname "$0")"
 export GOFLAGS=-mod=mod GOPROXY=off GOSUMDB=off GOTOOLCHAIN=local
+# output (evidence, replays, .work) and the known-findings file live next to this script
+export VERIF_HOME="${VERIF_HOME:-$PWD}"
+export VERIF_ROOT="${VERIF_ROOT:-$PWD}"
 ID="$1"; shift
 RACE=""
 BIN=bin/vcheck
